@@ -388,7 +388,7 @@ func vxC13Core() []vxC13Data {
 		vxC13P(0, 0, 50, 0, 128, 500, 254, 900, 255, 1000),
 		vxC13P(0, 0, 50, 0, 128, 0, 254, 500, 255, 1000),
 		vxC13P(0, 0, 50, 0, 128, 0, 254, 0, 255, 1000),
-		vxC13P(0, 0, 20, 500, 255, 1000), // DESIGN probe: first spin at 20 ...
+		vxC13P(0, 0, 20, 500, 255, 1000),        // DESIGN probe: first spin at 20 ...
 		vxC13P(0, 0, 20, 0, 50, 500, 255, 1000), // ... after first spin at 50
 		vxC13P(0, 0, 10, 0, 30, 300, 100, 900, 200, 1000),
 		// plateaus at the top: maximum reached early
